@@ -9,10 +9,14 @@
 (* The whole abstract state is ONE record, so that Apply is a function:   *)
 (*   dirs   : set of directory names                                      *)
 (*   dirent : <<dir, name>> -> inode number                               *)
-(*   data   : sequence, inode number -> contents (never garbage collected) *)
-(*   fds    : sequence, descriptor id  -> [ino, mode]; ids are never      *)
-(*            reused: every Create/Open yields an independent descriptor  *)
+(*   data   : inode id -> contents (never garbage collected)               *)
+(*   fds    : descriptor id -> [ino, mode]; ids are never reused: every   *)
+(*            Create/Open yields an independent descriptor                *)
 (*   live   : set of open descriptor ids                                  *)
+(* Fresh inode / descriptor ids: if the operation record carries a field  *)
+(* tok (a caller-chosen unique token: concurrent histories) the token is  *)
+(* the id, so that the abstract state does not depend on the order in     *)
+(* which independent operations are linearized; otherwise ids are 1,2,... *)
 EXTENDS Integers, Sequences, FiniteSets
 
 Ext(f, k, v) == [x \in DOMAIN f \cup {k} |-> IF x = k THEN v ELSE f[x]]
@@ -43,8 +47,11 @@ Valid(s, op) ==
 Rep(h, ok, data, names) == [h |-> h, ok |-> ok, data |-> data, names |-> names]
 Unit == Rep(0, 1, <<>>, {})
 
-NewFd(s, ino, mode) == [s EXCEPT !.fds = Append(@, [ino |-> ino, mode |-> mode]),
-                                 !.live = @ \cup {Len(s.fds) + 1}]
+FreshIno(s, op) == IF "tok" \in DOMAIN op THEN op.tok ELSE Cardinality(DOMAIN s.data) + 1
+FreshFd(s, op)  == IF "tok" \in DOMAIN op THEN op.tok ELSE Cardinality(DOMAIN s.fds) + 1
+
+NewFd(s, h, ino, mode) == [s EXCEPT !.fds = Ext(@, h, [ino |-> ino, mode |-> mode]),
+                                    !.live = @ \cup {h}]
 
 ReadRange(dat, off, len) == SubSeq(dat, off + 1, Min(off + len, Len(dat)))
 ListNames(s, d) == {p[2] : p \in {q \in DOMAIN s.dirent : q[1] = d}}
@@ -53,15 +60,17 @@ Apply(s, op) ==
   CASE op.op = "mkdir" -> [s |-> [s EXCEPT !.dirs = @ \cup {op.d}], r |-> Unit]
     [] op.op = "create" ->
          IF Exists(s, Path(op))
-         THEN [s |-> s, r |-> Rep(-1, 0, <<>>, {})]                 \* fails without side effects
-         ELSE LET ino == Len(s.data) + 1
-                  s1  == [s EXCEPT !.data = Append(@, <<>>), !.dirent = Ext(@, Path(op), ino)]
-              IN [s |-> NewFd(s1, ino, "a"), r |-> Rep(Len(s.fds) + 1, 1, <<>>, {})]
+         THEN [s |-> s, r |-> Rep(FreshFd(s, op), 0, <<>>, {})]     \* fails without side effects (h unused)
+         ELSE LET ino == FreshIno(s, op)
+                  h   == FreshFd(s, op)
+                  s1  == [s EXCEPT !.data = Ext(@, ino, <<>>), !.dirent = Ext(@, Path(op), ino)]
+              IN [s |-> NewFd(s1, h, ino, "a"), r |-> Rep(h, 1, <<>>, {})]
     [] op.op = "append" ->
          [s |-> [s EXCEPT !.data[s.fds[op.h].ino] = @ \o op.data], r |-> Unit]
     [] op.op = "close" -> [s |-> [s EXCEPT !.live = @ \ {op.h}], r |-> Unit]
     [] op.op = "open" ->
-         [s |-> NewFd(s, s.dirent[Path(op)], "r"), r |-> Rep(Len(s.fds) + 1, 1, <<>>, {})]
+         LET h == FreshFd(s, op)
+         IN [s |-> NewFd(s, h, s.dirent[Path(op)], "r"), r |-> Rep(h, 1, <<>>, {})]
     [] op.op = "readat" ->
          [s |-> s, r |-> Rep(0, 1, ReadRange(s.data[s.fds[op.h].ino], op.off, op.len), {})]
     [] op.op = "delete" -> [s |-> [s EXCEPT !.dirent = Rem(@, Path(op))], r |-> Unit]
@@ -70,7 +79,7 @@ Apply(s, op) ==
          THEN [s |-> s, r |-> Rep(0, 0, <<>>, {})]
          ELSE [s |-> [s EXCEPT !.dirent = Ext(@, Path2(op), s.dirent[Path(op)])], r |-> Unit]
     [] op.op = "atomiccreate" ->
-         LET ino == Len(s.data) + 1
-         IN [s |-> [s EXCEPT !.data = Append(@, op.data), !.dirent = Ext(@, Path(op), ino)], r |-> Unit]
+         LET ino == FreshIno(s, op)
+         IN [s |-> [s EXCEPT !.data = Ext(@, ino, op.data), !.dirent = Ext(@, Path(op), ino)], r |-> Unit]
     [] op.op = "list" -> [s |-> s, r |-> Rep(0, 1, <<>>, ListNames(s, op.d))]
 =============================================================================
